@@ -30,7 +30,7 @@ PROJECTION = {
     "C12": ["result:events", "result:adv", "snap:run", "wire:SyncRequest", "wire:SyncReply", "wire:KeepAlive", "snap:evq", "build"],
     "C13": ["result:adv", "result:addin", "snap:cur", "build"],
     "C15": ["snap:evq", "snap:ahead", "wire:QualityReport", "wire:QualityReply", "result:stats", "result:events", "build"],
-    "C16": ["build", "result:adv", "result:addin", "result:setdelay", "result:disc", "result:stats", "result:poll"],
+    "C16": ["build", "result:adv", "result:addin", "result:setdelay", "result:disc", "result:stats", "result:poll", "snap:st", "snap:df"],
     "C17": None,   # everything observable
     "C18": ["snap:evq", "snap:out", "snap:lch", "snap:eps", "result:events", "build"],
 }
